@@ -1,7 +1,7 @@
 from ..run import Prop
 from .. import gen_lossy, core
 from ..core import rec_fields, unhex, hexs
-from .c06 import parse_doc_items, nb
+from .c06 import parse_doc_items, parse_ldoc_enc, nb
 
 class C08(Prop):
     id = "C08"
@@ -33,7 +33,7 @@ class C08(Prop):
         if stream == "lossy-rt-any":
             return None
         r = rec_fields(impl)
-        d = parse_doc_items("" if fields[0] == "-" else fields[0])
+        d = parse_ldoc_enc(fields[0])
         if not r.get("reread", "").startswith("OK"):
             return "lossy reader rejects the printed form of a canonical value"
         if parse_doc_items(r["reread"][3:]) != d:
